@@ -855,3 +855,743 @@ Proof.
   - pose proof (sp_run_plain _ Idle _ I P He) as ->. cbn [sp_summary numeric].
     apply class_plain. apply existsb_false_forallb. exact Hl.
 Qed.
+(* ================= the decoder's classification is the specification's ================= *)
+Definition signchar (c : N) : bool := mem c [43; 45; 83; 68; 67].
+Definition nonS (c : N) : bool := mem c [43; 45; 68; 67].
+Definition pointchar (c : N) : bool := mem c [86; 46].
+Definition utext (i : item) : list N := map sp_upper (item_text i).
+
+Definition isS (i : item) : bool := match i with Tok (E KSign t) => list_N_eqb t [83] | _ => true end.
+Definition isV (i : item) : bool := match i with Tok (E KDecimal t) => list_N_eqb t [86] | _ => true end.
+Definition isD9 (i : item) : bool := match i with Tok (E KDigit t) => all9 t | _ => true end.
+Definition isNE (i : item) : bool := match i with Tok (E KChar _) => false | _ => true end.
+
+Definition hd_opt (t : list N) : option N := match t with [] => None | x :: _ => Some x end.
+
+Lemma flat_cons' i l : flat (i :: l) = utext i ++ flat l.
+Proof. apply flat_cons. Qed.
+
+(* ---- characters of a run of data characters ---- *)
+Lemma cls_none (q : N -> bool) t : (forall c, incls c = true -> q c = false) ->
+  forallb incls t = true -> existsb q t = false.
+Proof.
+  intros Hq. induction t as [|d r IH]; [reflexivity|]. cbn [forallb existsb]. intros H.
+  apply andb_true_iff in H. destruct H as [Hd Hr]. now rewrite (Hq d Hd), (IH Hr).
+Qed.
+
+Lemma last_of_none p t o : existsb p t = false -> last_of p t o = o.
+Proof.
+  revert o. induction t as [|d r IH]; intros o; [reflexivity|]. cbn [existsb last_of]. intros H.
+  apply orb_false_iff in H. destruct H as [Hd Hr]. rewrite Hd. now apply IH.
+Qed.
+
+Lemma cls_nonS c : incls c = true -> nonS c = false.
+Proof. intros H. mem_split H; reflexivity. Qed.
+Lemma cls_signchar c : incls c = true -> signchar c = false.
+Proof. intros H. mem_split H; reflexivity. Qed.
+Lemma cls_pointchar c : incls c = true -> pointchar c = false.
+Proof. intros H. mem_split H; reflexivity. Qed.
+Lemma cls_dot c : incls c = true -> (46 =? c) = false.
+Proof. intros H. mem_split H; reflexivity. Qed.
+
+Lemma cls_numeric t : forallb incls t = true -> sp_numeric t = all9 t.
+Proof.
+  unfold sp_numeric, all9. induction t as [|d r IH]; [reflexivity|]. cbn [forallb]. intros H.
+  apply andb_true_iff in H. destruct H as [Hd Hr]. rewrite (IH Hr). f_equal.
+  mem_split Hd; reflexivity.
+Qed.
+
+Ltac sign_texts Hwi t :=
+  cbn [existsb] in Hwi;
+  repeat (apply orb_true_iff in Hwi; destruct Hwi as [Hwi|Hwi]); try discriminate Hwi;
+  unfold list_N_eqb in Hwi; apply andb_true_iff in Hwi;
+  let Hl := fresh "Hl" in let Hv := fresh "Hv" in destruct Hwi as [Hl Hv];
+  destruct t as [|? [|? [|? ?]]]; try discriminate Hl; cbn in Hv;
+  repeat (apply andb_true_iff in Hv; destruct Hv as [? Hv]);
+  repeat match goal with H : (_ =? _) = true |- _ => apply N.eqb_eq in H; subst end.
+
+(* ---- what one item contributes ---- *)
+Lemma item_facts i : wf_item i = true -> clean_item i = true ->
+  existsb nonS (utext i) = negb (isS i) /\
+  existsb (N.eqb 46) (utext i) = negb (isV i) /\
+  sp_numeric (utext i) = isS i && isV i && isD9 i && isNE i /\
+  (forall o, last_of signchar (utext i) o = match i with Tok (E KSign t) => hd_opt t | _ => o end) /\
+  (forall o, last_of pointchar (utext i) o = match i with Tok (E KDecimal t) => hd_opt t | _ => o end).
+Proof.
+  intros Hwi Hci. destruct i as [[k t]|c|]; [| |discriminate].
+  - unfold utext. cbn [item_text]. destruct k; cbn [wf_item wf_elt] in Hwi.
+    + sign_texts Hwi t; (repeat split; try reflexivity; intros o; reflexivity).
+    + destruct t as [|c0 [|]]; try discriminate. mem_split Hwi; (repeat split; try reflexivity; intros o; reflexivity).
+    + destruct t as [|c0 [|]]; try discriminate. mem_split Hwi; (repeat split; try reflexivity; intros o; reflexivity).
+    + rewrite (upper_cls _ Hwi). cbn [isS isV isD9 isNE andb negb].
+      repeat split.
+      * apply cls_none; [apply cls_nonS|exact Hwi].
+      * apply cls_none; [apply cls_dot|exact Hwi].
+      * rewrite andb_true_r. now apply cls_numeric.
+      * intros o. apply last_of_none. apply cls_none; [apply cls_signchar|exact Hwi].
+      * intros o. apply last_of_none. apply cls_none; [apply cls_pointchar|exact Hwi].
+  - cbn [clean_item] in Hci. apply orb_true_iff in Hci.
+    destruct Hci as [Hc|Hc]; apply N.eqb_eq in Hc; subst c;
+      (repeat split; try reflexivity; intros o; reflexivity).
+Qed.
+
+Lemma last_of_app p a b o : last_of p (a ++ b) o = last_of p b (last_of p a o).
+Proof. revert o. induction a as [|c a IH]; intros o; [reflexivity|]. cbn [app last_of]. apply IH. Qed.
+
+Lemma wf_clean_cons i l : forallb wf_item (i :: l) = true -> clean (i :: l) = true ->
+  wf_item i = true /\ clean_item i = true /\ forallb wf_item l = true /\ clean l = true.
+Proof.
+  unfold clean. cbn [forallb]. intros H1 H2. apply andb_true_iff in H1. apply andb_true_iff in H2. tauto.
+Qed.
+
+Lemma flat_nonS l : forallb wf_item l = true -> clean l = true ->
+  existsb nonS (flat l) = negb (forallb isS l).
+Proof.
+  induction l as [|i l IH]; intros Hwf Hcl; [reflexivity|].
+  destruct (wf_clean_cons _ _ Hwf Hcl) as (Hwi & Hci & Hwl & Hcl').
+  destruct (item_facts i Hwi Hci) as (Fa & _).
+  rewrite flat_cons', existsb_app, Fa, (IH Hwl Hcl'). cbn [forallb]. now rewrite negb_andb.
+Qed.
+
+Lemma flat_dot l : forallb wf_item l = true -> clean l = true ->
+  mem 46 (flat l) = negb (forallb isV l).
+Proof.
+  unfold mem. induction l as [|i l IH]; intros Hwf Hcl; [reflexivity|].
+  destruct (wf_clean_cons _ _ Hwf Hcl) as (Hwi & Hci & Hwl & Hcl').
+  destruct (item_facts i Hwi Hci) as (_ & Fb & _).
+  rewrite flat_cons', existsb_app, Fb, (IH Hwl Hcl'). cbn [forallb]. now rewrite negb_andb.
+Qed.
+
+Lemma flat_numeric l : forallb wf_item l = true -> clean l = true ->
+  sp_numeric (flat l) = forallb isS l && forallb isV l && forallb isD9 l && forallb isNE l.
+Proof.
+  induction l as [|i l IH]; intros Hwf Hcl; [reflexivity|].
+  destruct (wf_clean_cons _ _ Hwf Hcl) as (Hwi & Hci & Hwl & Hcl').
+  destruct (item_facts i Hwi Hci) as (_ & _ & Fc & _).
+  rewrite flat_cons'. unfold sp_numeric in *. rewrite forallb_app, Fc, (IH Hwl Hcl'). cbn [forallb].
+  destruct (isS i), (isV i), (isD9 i), (isNE i), (forallb isS l), (forallb isV l), (forallb isD9 l); reflexivity.
+Qed.
+
+(* ---- the last sign / point text kept by digit_groups ---- *)
+Definition kind_eqb (a b : kind) : bool :=
+  match a, b with KSign, KSign | KChar, KChar | KDecimal, KDecimal | KDigit, KDigit => true | _, _ => false end.
+
+Fixpoint last_txt (k : kind) (es : list elt) (acc : list N) : list N :=
+  match es with
+  | [] => acc
+  | E k' t :: r => match t with
+                   | [] => last_txt k r acc
+                   | _ :: _ => if kind_eqb k k' then last_txt k r t else last_txt k r acc
+                   end
+  end.
+
+Definition dig9 (e : elt) : bool := match e with E KDigit t => all9 t | _ => true end.
+
+Lemma all9_app a b : all9 (a ++ b) = all9 a && all9 b.
+Proof. apply forallb_app. Qed.
+Lemma all9_nines k : all9 (repeat 57 k) = true.
+Proof. induction k; [reflexivity|]. cbn [repeat all9 forallb]. exact IHk. Qed.
+
+Lemma groups_inv es : forall frac g,
+  g_sign (groups_loop es frac g) = last_txt KSign es (g_sign g) /\
+  g_sep (groups_loop es frac g) = last_txt KDecimal es (g_sep g) /\
+  all9 (g_int (groups_loop es frac g)) && all9 (g_frac (groups_loop es frac g))
+    = all9 (g_int g) && all9 (g_frac g) && forallb dig9 es.
+Proof.
+  induction es as [|[k t] r IH]; intros frac g.
+  { cbn. now rewrite andb_true_r. }
+  cbn [groups_loop last_txt forallb]. destruct t as [|x t'].
+  { destruct (IH frac g) as (H1 & H2 & H3). repeat split; try assumption.
+    rewrite H3. destruct k; cbn [dig9 all9 forallb]; reflexivity. }
+  destruct k; cbn [kind_eqb dig9].
+  - match goal with |- context [groups_loop r frac ?G] => destruct (IH frac G) as (H1 & H2 & H3) end.
+    cbn [g_sign g_int g_sep g_frac] in *. repeat split; assumption.
+  - destruct frac;
+      match goal with |- context [groups_loop r ?F ?G] => destruct (IH F G) as (H1 & H2 & H3) end;
+      cbn [g_sign g_int g_sep g_frac] in *; (repeat split; try assumption);
+      rewrite H3, all9_app, all9_nines, ?andb_true_r; reflexivity.
+  - match goal with |- context [groups_loop r true ?G] => destruct (IH true G) as (H1 & H2 & H3) end.
+    cbn [g_sign g_int g_sep g_frac] in *. repeat split; assumption.
+  - destruct frac;
+      match goal with |- context [groups_loop r ?F ?G] => destruct (IH F G) as (H1 & H2 & H3) end;
+      cbn [g_sign g_int g_sep g_frac] in *; (repeat split; try assumption);
+      rewrite H3, all9_app;
+      destruct (all9 (g_int g)), (all9 (g_frac g)), (all9 (x :: t')); reflexivity.
+Qed.
+
+Definition sign_txt (x : N) : list N := if x =? 68 then [68; 66] else if x =? 67 then [67; 82] else [x].
+Definition otxt_s (o : option N) : list N := match o with None => [] | Some x => sign_txt x end.
+Definition otxt_p (o : option N) : list N := match o with None => [] | Some x => [x] end.
+
+Lemma last_sign l : forallb wf_item l = true -> clean l = true ->
+  forall o, last_txt KSign (elems l) (otxt_s o) = otxt_s (last_of signchar (flat l) o).
+Proof.
+  induction l as [|i l IH]; intros Hwf Hcl o; [reflexivity|].
+  destruct (wf_clean_cons _ _ Hwf Hcl) as (Hwi & Hci & Hwl & Hcl').
+  destruct (item_facts i Hwi Hci) as (_ & _ & _ & Fd & _).
+  rewrite flat_cons', last_of_app, Fd.
+  destruct i as [[k t]|c|]; [| |discriminate].
+  - cbn [elems last_txt]. destruct t as [|x t']; [discriminate|].
+    destruct k; cbn [kind_eqb]; try (apply IH; assumption).
+    rewrite <- (IH Hwl Hcl'). f_equal.
+    cbn [wf_item wf_elt] in Hwi. sign_texts Hwi t'; reflexivity.
+  - cbn [elems]. apply IH; assumption.
+Qed.
+
+Lemma last_point l : forallb wf_item l = true -> clean l = true ->
+  forall o, last_txt KDecimal (elems l) (otxt_p o) = otxt_p (last_of pointchar (flat l) o).
+Proof.
+  induction l as [|i l IH]; intros Hwf Hcl o; [reflexivity|].
+  destruct (wf_clean_cons _ _ Hwf Hcl) as (Hwi & Hci & Hwl & Hcl').
+  destruct (item_facts i Hwi Hci) as (_ & _ & _ & _ & Fe).
+  rewrite flat_cons', last_of_app, Fe.
+  destruct i as [[k t]|c|]; [| |discriminate].
+  - cbn [elems last_txt]. destruct t as [|x t']; [discriminate|].
+    destruct k; cbn [kind_eqb]; try (apply IH; assumption).
+    rewrite <- (IH Hwl Hcl'). f_equal.
+    cbn [wf_item wf_elt] in Hwi. destruct t'; [reflexivity|discriminate].
+  - cbn [elems]. apply IH; assumption.
+Qed.
+
+Lemma dig9_items l : clean l = true -> forallb dig9 (elems l) = forallb isD9 l.
+Proof.
+  induction l as [|i l IH]; intros Hcl; [reflexivity|].
+  unfold clean in Hcl. cbn [forallb] in Hcl. apply andb_true_iff in Hcl. destruct Hcl as [Hci Hcl].
+  destruct i as [[k t]|c|]; [| |discriminate]; cbn [elems forallb isD9]; rewrite (IH Hcl); [|reflexivity].
+  destruct k; reflexivity.
+Qed.
+
+Lemma edit_items l : clean l = true -> negb (has_edit (elems l)) = forallb isNE l.
+Proof.
+  unfold has_edit. induction l as [|i l IH]; intros Hcl; [reflexivity|].
+  unfold clean in Hcl. cbn [forallb] in Hcl. apply andb_true_iff in Hcl. destruct Hcl as [Hci Hcl].
+  destruct i as [[k t]|c|]; [| |discriminate]; cbn [elems forallb isNE existsb].
+  - rewrite negb_orb, (IH Hcl). destruct t; [discriminate|]. destruct k; reflexivity.
+  - now rewrite (IH Hcl).
+Qed.
+
+(* ---- character-level facts about last_of ---- *)
+Lemma last_of_sat p e : forall o x, last_of p e o = Some x -> o = Some x \/ (p x = true /\ In x e).
+Proof.
+  induction e as [|c e IH]; intros o x H; [now left|].
+  cbn [last_of] in H. destruct (IH _ _ H) as [H1|[H1 H2]].
+  - destruct (p c) eqn:Ep; [|now left]. injection H1 as <-. right. split; [assumption|now left].
+  - right. split; [assumption|now right].
+Qed.
+
+Lemma last_of_some p e : forall o, existsb p e = true -> last_of p e o <> None.
+Proof.
+  induction e as [|c e IH]; intros o H; [discriminate|].
+  cbn [existsb] in H. cbn [last_of]. destruct (p c) eqn:Ep.
+  - intros Hn. destruct (existsb p e) eqn:Ee; [now apply (IH (Some c))|].
+    rewrite (last_of_none _ _ _ Ee) in Hn. discriminate.
+  - apply IH. exact H.
+Qed.
+
+Lemma existsb_mono {A} (p q : A -> bool) l : (forall x, p x = true -> q x = true) ->
+  existsb p l = true -> existsb q l = true.
+Proof.
+  intros Hpq. rewrite !existsb_exists. intros [x [H1 H2]]. exists x. split; [assumption|now apply Hpq].
+Qed.
+
+Definition signok (t : list N) : bool := list_N_eqb t [] || list_N_eqb t [83] || list_N_eqb t [115].
+Definition sepok (t : list N) : bool := list_N_eqb t [86] || list_N_eqb t [118] || list_N_eqb t [].
+
+(* the sign test of zoned_decimal on the last sign = no sign other than S, unless the trigger of finding 8 holds *)
+Lemma signok_glue e :
+  (existsb nonS e && is_some_N (last_of signchar e None) 83) = false ->
+  signok (otxt_s (last_of signchar e None)) = negb (existsb nonS e).
+Proof.
+  intros H. destruct (last_of signchar e None) as [x|] eqn:E.
+  - destruct (last_of_sat _ _ _ _ E) as [H0|[Hx Hin]]; [discriminate|].
+    destruct (existsb nonS e) eqn:A.
+    + cbn [andb is_some_N] in H. cbn [negb otxt_s]. mem_split Hx; try discriminate H; reflexivity.
+    + cbn [negb otxt_s].
+      assert (Hn : nonS x = false).
+      { destruct (nonS x) eqn:En; [|reflexivity].
+        assert (existsb nonS e = true) by (apply existsb_exists; exists x; split; assumption). congruence. }
+      mem_split Hx; try discriminate Hn; reflexivity.
+  - destruct (existsb nonS e) eqn:A; [|reflexivity].
+    exfalso. apply (last_of_some signchar e None); [|exact E].
+    eapply existsb_mono; [|exact A]. intros x Hx. mem_split Hx; reflexivity.
+Qed.
+
+Lemma sepok_glue e :
+  (existsb (N.eqb 46) e && is_some_N (last_of pointchar e None) 86) = false ->
+  sepok (otxt_p (last_of pointchar e None)) = negb (existsb (N.eqb 46) e).
+Proof.
+  intros H. destruct (last_of pointchar e None) as [x|] eqn:E.
+  - destruct (last_of_sat _ _ _ _ E) as [H0|[Hx Hin]]; [discriminate|].
+    destruct (existsb (N.eqb 46) e) eqn:A.
+    + cbn [andb is_some_N] in H. cbn [negb otxt_p]. mem_split Hx; try discriminate H; reflexivity.
+    + cbn [negb otxt_p].
+      assert (Hn : (46 =? x) = false).
+      { destruct (46 =? x) eqn:En; [|reflexivity].
+        assert (existsb (N.eqb 46) e = true) by (apply existsb_exists; exists x; split; assumption). congruence. }
+      mem_split Hx; try discriminate Hn; reflexivity.
+  - destruct (existsb (N.eqb 46) e) eqn:A; [|reflexivity].
+    exfalso. apply (last_of_some pointchar e None); [|exact E].
+    eapply existsb_mono; [|exact A]. intros x Hx. apply N.eqb_eq in Hx. subst x. reflexivity.
+Qed.
+
+(* ---- zoned_decimal on a clean scan = the expansion is numeric (and some position exists) ---- *)
+Lemma zoned_numeric l n : forallb wf_item l = true -> clean l = true -> lastonly (flat l) = false ->
+  zoned_decimal (elems l) n = negb (Nat.eqb n 0) && sp_numeric (flat l).
+Proof.
+  intros Hwf Hcl Hlo. unfold zoned_decimal, digit_groups. cbv zeta.
+  destruct (groups_inv (elems l) false {| g_sign := []; g_int := []; g_sep := []; g_frac := [] |}) as (H1 & H2 & H3).
+  cbn [g_sign g_int g_sep g_frac] in H1, H2, H3.
+  set (g := groups_loop (elems l) false {| g_sign := []; g_int := []; g_sep := []; g_frac := [] |}) in *.
+  change [] with (otxt_s None) in H1. rewrite (last_sign l Hwf Hcl None) in H1.
+  change (last_txt KDecimal (elems l) []) with (last_txt KDecimal (elems l) (otxt_p None)) in H2.
+  rewrite (last_point l Hwf Hcl None) in H2.
+  unfold lastonly in Hlo. apply orb_false_iff in Hlo. destruct Hlo as [Hlo1 Hlo2].
+  change (fun c : N => mem c [43; 45; 68; 67]) with nonS in Hlo1.
+  change (fun c : N => mem c [43; 45; 83; 68; 67]) with signchar in Hlo1.
+  change (fun c : N => mem c [86; 46]) with pointchar in Hlo2.
+  unfold mem in Hlo2.
+  pose proof (signok_glue _ Hlo1) as Gs. pose proof (sepok_glue _ Hlo2) as Gp.
+  rewrite <- H1 in Gs. rewrite <- H2 in Gp. unfold signok in Gs. unfold sepok in Gp.
+  rewrite Gs, Gp. rewrite (flat_nonS l Hwf Hcl).
+  pose proof (flat_dot l Hwf Hcl) as Fd. unfold mem in Fd. rewrite Fd.
+  rewrite !negb_involutive.
+  rewrite (flat_numeric l Hwf Hcl), <- (dig9_items l Hcl), <- (edit_items l Hcl).
+  cbn [all9 forallb andb] in H3.
+  destruct (all9 (g_int g)), (all9 (g_frac g)); cbn [andb] in H3; rewrite <- H3;
+    destruct (negb (Nat.eqb n 0)), (forallb isS l), (forallb isV l), (negb (has_edit (elems l))); reflexivity.
+Qed.
+
+(* ---- what dec_parse returns on an accepted string outside the known findings ---- *)
+Lemma dec_parse_shape s r : known_bad s = false -> dec_parse s = Some (Ok r) ->
+  let l := dec_items s in
+  clean l = true /\ forallb wf_item l = true /\ ends_with_tok l = true /\ sp_expand s = Some (flat l) /\
+  r = {| p_elems := elems l; p_size := sp_positions (flat l); p_groups := digit_groups (elems l);
+         p_zoned := zoned_decimal (elems l) (sp_positions (flat l)) |}.
+Proof.
+  intros Hkb Hr l. pose proof (dec_parse_ok _ _ Hr) as Hend.
+  destruct (accepted_facts s Hkb Hend) as (Hcl & Hexp & Hsize). fold l in Hcl, Hexp, Hsize, Hend.
+  repeat split; try assumption.
+  - unfold l. rewrite dec_items_eq. apply scan_wf.
+  - unfold dec_parse in Hr. rewrite dec_normalize_eq in Hr. fold l in Hr. rewrite Hend, Hsize in Hr.
+    now injection Hr as <-.
+Qed.
+
+Lemma dec_class s r v : known_bad s = false -> dec_parse s = Some (Ok r) -> sp_parse s = Some v ->
+  p_zoned r = numeric v.
+Proof.
+  intros Hkb Hr Hv. destruct (dec_parse_shape s r Hkb Hr) as (Hcl & Hwf & _ & Hexp & ->).
+  destruct (known_bad_false s Hkb) as (_ & _ & _ & _ & _ & Hlo & Hzp & _).
+  unfold kb_lastonly in Hlo. rewrite Hexp in Hlo.
+  unfold kb_zeropos in Hzp. rewrite Hv in Hzp.
+  unfold sp_parse in Hv. rewrite Hexp in Hv. injection Hv as <-.
+  cbn [p_zoned sp_summary positions numeric] in *.
+  rewrite (zoned_numeric _ _ Hwf Hcl Hlo). now rewrite Hzp.
+Qed.
+
+Lemma agree_class s r : known_bad s = false -> dec_parse s = Some (Ok r) -> gen_numeric s = p_zoned r.
+Proof.
+  intros Hkb Hr.
+  destruct (strict s Hkb) as [H|(r0 & v & H1 & H2 & _)]; [rewrite H in Hr; discriminate|].
+  rewrite (gen_class s v Hkb H2). symmetry. now apply (dec_class s r v).
+Qed.
+
+(* ================= digit_groups counts what the specification counts ================= *)
+Definition item_count (i : item) : nat :=
+  match i with Tok (E KDigit t) => length t | Tok (E KChar t) => count_star t | _ => O end.
+Definition is_dec (i : item) : bool := match i with Tok (E KDecimal _) => true | _ => false end.
+
+Lemma cls_data t : forallb incls t = true -> filter sp_data t = t.
+Proof.
+  induction t as [|d r IH]; [reflexivity|]. cbn [forallb filter]. intros H.
+  apply andb_true_iff in H. destruct H as [Hd Hr]. rewrite (IH Hr).
+  assert (Hs : sp_data d = true) by (mem_split Hd; reflexivity). now rewrite Hs.
+Qed.
+Lemma cls_point c : incls c = true -> sp_point c = false.
+Proof. intros H. mem_split H; reflexivity. Qed.
+
+Lemma item_facts2 i : wf_item i = true -> clean_item i = true ->
+  if is_dec i then exists c, utext i = [c] /\ sp_point c = true /\ sp_data c = false
+  else existsb sp_point (utext i) = false /\ length (filter sp_data (utext i)) = item_count i.
+Proof.
+  intros Hwi Hci. destruct i as [[k t]|c|]; [| |discriminate].
+  - unfold utext. cbn [item_text is_dec item_count]. destruct k; cbn [wf_item wf_elt] in Hwi.
+    + sign_texts Hwi t; split; reflexivity.
+    + destruct t as [|c0 [|]]; try discriminate. mem_split Hwi; split; reflexivity.
+    + destruct t as [|c0 [|]]; try discriminate. mem_split Hwi; eexists; repeat split; reflexivity.
+    + rewrite (upper_cls _ Hwi). split.
+      * apply cls_none; [apply cls_point|exact Hwi].
+      * now rewrite (cls_data _ Hwi).
+  - cbn [clean_item] in Hci. apply orb_true_iff in Hci.
+    destruct Hci as [Hc|Hc]; apply N.eqb_eq in Hc; subst c; split; reflexivity.
+Qed.
+
+Lemma int_app u r : existsb sp_point u = false -> sp_int (u ++ r) = (length (filter sp_data u) + sp_int r)%nat.
+Proof.
+  induction u as [|c u IH]; [reflexivity|]. cbn [existsb app sp_int filter]. intros H.
+  apply orb_false_iff in H. destruct H as [Hc Hu]. rewrite Hc, (IH Hu).
+  destruct (sp_data c); reflexivity.
+Qed.
+Lemma frac_app u r : existsb sp_point u = false -> sp_frac (u ++ r) = sp_frac r.
+Proof.
+  induction u as [|c u IH]; [reflexivity|]. cbn [existsb app sp_frac]. intros H.
+  apply orb_false_iff in H. destruct H as [Hc Hu]. now rewrite Hc, (IH Hu).
+Qed.
+
+Lemma groups_len l : forallb wf_item l = true -> clean l = true -> forall frac g,
+  length (g_int (groups_loop (elems l) frac g)) =
+    (length (g_int g) + (if frac then O else sp_int (flat l)))%nat /\
+  length (g_frac (groups_loop (elems l) frac g)) =
+    (length (g_frac g) + (if frac then length (filter sp_data (flat l)) else sp_frac (flat l)))%nat.
+Proof.
+  induction l as [|i l IH]; intros Hwf Hcl frac g.
+  { destruct frac; cbn; split; lia. }
+  destruct (wf_clean_cons _ _ Hwf Hcl) as (Hwi & Hci & Hwl & Hcl').
+  pose proof (item_facts2 i Hwi Hci) as F. rewrite flat_cons'.
+  specialize (IH Hwl Hcl').
+  destruct i as [[k t]|c|]; [| |discriminate].
+  - cbn [elems groups_loop]. destruct t as [|x t']; [discriminate|].
+    destruct k; cbn [is_dec item_count] in F.
+    + destruct F as [Fp Fc].
+      match goal with |- context [groups_loop (elems l) frac ?G] => destruct (IH frac G) as [I1 I2] end.
+      cbn [g_int g_frac] in I1, I2. rewrite I1, I2, (int_app _ _ Fp), (frac_app _ _ Fp), filter_app, app_length, Fc.
+      clear - g; destruct frac; split; lia.
+    + destruct F as [Fp Fc].
+      destruct frac;
+        match goal with |- context [groups_loop (elems l) ?F ?G] => destruct (IH F G) as [I1 I2] end;
+        cbn [g_int g_frac] in I1, I2;
+        rewrite I1, I2, ?(int_app _ _ Fp), ?(frac_app _ _ Fp), ?filter_app, ?app_length, ?repeat_length, ?Fc;
+        clear - g; split; lia.
+    + destruct F as (c & Fu & Fp & Fd). rewrite Fu.
+      match goal with |- context [groups_loop (elems l) true ?G] => destruct (IH true G) as [I1 I2] end.
+      cbn [g_int g_frac] in I1, I2. rewrite I1, I2. cbn [app sp_int sp_frac filter]. rewrite Fp, Fd.
+      clear - g; destruct frac; split; lia.
+    + destruct F as [Fp Fc].
+      destruct frac;
+        match goal with |- context [groups_loop (elems l) ?F ?G] => destruct (IH F G) as [I1 I2] end;
+        cbn [g_int g_frac] in I1, I2;
+        rewrite I1, I2, ?(int_app _ _ Fp), ?(frac_app _ _ Fp), ?filter_app, ?app_length, ?Fc;
+        clear - g; split; lia.
+  - cbn [elems]. cbn [is_dec item_count] in F. destruct F as [Fp Fc].
+    destruct (IH frac g) as [I1 I2].
+    rewrite I1, I2, (int_app _ _ Fp), (frac_app _ _ Fp), filter_app, app_length, Fc.
+    clear - g; destruct frac; split; lia.
+Qed.
+
+(* the groups of a clean scan, in terms of its expansion *)
+Lemma groups_flat l : forallb wf_item l = true -> clean l = true ->
+  g_sign (digit_groups (elems l)) = otxt_s (last_of signchar (flat l) None) /\
+  length (g_int (digit_groups (elems l))) = sp_int (flat l) /\
+  length (g_frac (digit_groups (elems l))) = sp_frac (flat l).
+Proof.
+  intros Hwf Hcl. unfold digit_groups.
+  destruct (groups_inv (elems l) false {| g_sign := []; g_int := []; g_sep := []; g_frac := [] |}) as (H1 & _).
+  destruct (groups_len l Hwf Hcl false {| g_sign := []; g_int := []; g_sep := []; g_frac := [] |}) as (L1 & L2).
+  cbn [g_sign g_int g_frac length] in *. repeat split; try assumption.
+  rewrite H1. change [] with (otxt_s None). apply last_sign; assumption.
+Qed.
+
+(* ================= scanning an expansion again ================= *)
+Definition okc (c : N) : bool := mem c [43; 45; 83; 36; 44; 47; 42; 66; 86; 46; 65; 88; 57; 90; 48; 80].
+
+(* a string every character of which the decoder scanner matches or is P *)
+Fixpoint vf (e : list N) : bool :=
+  match e with
+  | [] => true
+  | c :: t =>
+      if c =? 68 then match t with d :: t' => (d =? 66) && vf t' | [] => false end
+      else if c =? 67 then match t with d :: t' => (d =? 82) && vf t' | [] => false end
+      else okc c && vf t
+  end.
+
+Lemma okc_cons c t : okc c = true -> vf (c :: t) = vf t.
+Proof. intros H. cbn [vf]. mem_split H; reflexivity. Qed.
+
+Lemma vf_app_ok u r : forallb okc u = true -> vf r = true -> vf (u ++ r) = true.
+Proof.
+  induction u as [|c u IH]; intros Hu Hr; [exact Hr|]. cbn [forallb] in Hu.
+  apply andb_true_iff in Hu. destruct Hu as [Hc Hu]. cbn [app]. rewrite (okc_cons _ _ Hc). now apply IH.
+Qed.
+
+Lemma cls_okc t : forallb incls t = true -> forallb okc t = true.
+Proof.
+  induction t as [|d r IH]; [reflexivity|]. cbn [forallb]. intros H.
+  apply andb_true_iff in H. destruct H as [Hd Hr]. rewrite (IH Hr), andb_true_r. mem_split Hd; reflexivity.
+Qed.
+
+Lemma vf_flat l : forallb wf_item l = true -> clean l = true -> vf (flat l) = true.
+Proof.
+  induction l as [|i l IH]; intros Hwf Hcl; [reflexivity|].
+  destruct (wf_clean_cons _ _ Hwf Hcl) as (Hwi & Hci & Hwl & Hcl').
+  rewrite flat_cons'. specialize (IH Hwl Hcl'). set (R := flat l) in *.
+  destruct i as [[k t]|c|]; [| |discriminate]; unfold utext; cbn [item_text].
+  - destruct k; cbn [wf_item wf_elt] in Hwi.
+    + sign_texts Hwi t; cbn; exact IH.
+    + destruct t as [|c0 [|]]; try discriminate. mem_split Hwi; cbn; exact IH.
+    + destruct t as [|c0 [|]]; try discriminate. mem_split Hwi; cbn; exact IH.
+    + rewrite (upper_cls _ Hwi). apply vf_app_ok; [now apply cls_okc|exact IH].
+  - cbn [clean_item] in Hci. apply orb_true_iff in Hci.
+    destruct Hci as [Hc|Hc]; apply N.eqb_eq in Hc; subst c; cbn; exact IH.
+Qed.
+
+Lemma vf_repeat_tail t : vf t = true -> repeat_tail t = None.
+Proof.
+  destruct t as [|p t1]; [reflexivity|]. unfold repeat_tail.
+  destruct (p =? 40) eqn:E; [|reflexivity]. apply N.eqb_eq in E. subst p. cbn. discriminate.
+Qed.
+
+Lemma vf_span t : vf t = true -> vf (snd (span incls t)) = true.
+Proof.
+  induction t as [|c t IH]; intros H; [reflexivity|]. cbn [span].
+  destruct (incls c) eqn:Ec; [|exact H].
+  assert (Hok : okc c = true) by (mem_split Ec; reflexivity).
+  rewrite (okc_cons _ _ Hok) in H. specialize (IH H).
+  destruct (span incls t) as [a b]. exact IH.
+Qed.
+
+Lemma span_length p t : (length (snd (span p t)) <= length t)%nat.
+Proof.
+  induction t as [|c t IH]; [cbn; lia|]. cbn [span]. destruct (p c); [|cbn; lia].
+  destruct (span p t) as [a b]. cbn [snd length] in *. lia.
+Qed.
+
+Lemma token_cls c t : incls c = true -> repeat_tail t = None ->
+  token_at false cls cls (c :: t) = Some (E KDigit (c :: fst (span incls t)), snd (span incls t)).
+Proof.
+  intros Hc Hr. unfold token_at. cbn [up]. cbv zeta. rewrite Hr.
+  change (fun d : N => mem d cls) with incls.
+  mem_split Hc; cbn; destruct (span incls t); reflexivity.
+Qed.
+
+Lemma rescan_clean f : forall e, (length e <= f)%nat -> vf e = true -> clean (dscan f e) = true.
+Proof.
+  induction f as [|f IH]; intros e Hlen Hv.
+  { destruct e; [reflexivity|simpl in Hlen; lia]. }
+  destruct e as [|c t]; [reflexivity|]. unfold dscan, clean in *. cbn [scan].
+  cbn [vf] in Hv.
+  destruct (c =? 68) eqn:E68.
+  { apply N.eqb_eq in E68. subst c. destruct t as [|d t']; [discriminate|].
+    apply andb_true_iff in Hv. destruct Hv as [Hd Hv]. apply N.eqb_eq in Hd. subst d.
+    change (token_at false cls cls (68 :: 66 :: t')) with (Some (E KSign [68; 66], t')).
+    cbn [forallb clean_item andb]. apply IH; [clear - Hlen; simpl in Hlen; lia|exact Hv]. }
+  destruct (c =? 67) eqn:E67.
+  { apply N.eqb_eq in E67. subst c. destruct t as [|d t']; [discriminate|].
+    apply andb_true_iff in Hv. destruct Hv as [Hd Hv]. apply N.eqb_eq in Hd. subst d.
+    change (token_at false cls cls (67 :: 82 :: t')) with (Some (E KSign [67; 82], t')).
+    cbn [forallb clean_item andb]. apply IH; [clear - Hlen; simpl in Hlen; lia|exact Hv]. }
+  apply andb_true_iff in Hv. destruct Hv as [Hc Hv].
+  assert (Ht : forallb clean_item (scan false cls cls f t) = true).
+  { apply IH; [clear - Hlen; simpl in Hlen; lia|exact Hv]. }
+  destruct (incls c) eqn:Ec.
+  { rewrite (token_cls c t Ec (vf_repeat_tail _ Hv)). cbn [forallb clean_item andb].
+    apply IH; [|now apply vf_span].
+    pose proof (span_length incls t). clear - Hlen H. simpl in Hlen. lia. }
+  clear E68 E67.
+  mem_split Hc; try discriminate Ec;
+    first [ change (token_at false cls cls (80 :: t)) with (@None (elt * list N)); cbn [forallb clean_item andb orb]; exact Ht
+          | match goal with |- context [token_at false cls cls (?k :: t)] =>
+              first [ change (token_at false cls cls (k :: t)) with (Some (E KSign [k], t))
+                    | change (token_at false cls cls (k :: t)) with (Some (E KChar [k], t))
+                    | change (token_at false cls cls (k :: t)) with (Some (E KDecimal [k], t)) ] end;
+            cbn [forallb clean_item andb]; exact Ht ].
+Qed.
+
+(* ---- acceptance: the last character decides ---- *)
+Fixpoint endsP (e : list N) : bool :=
+  match e with [] => false | c :: t => match t with [] => c =? 80 | _ :: _ => endsP t end end.
+
+Lemma endsP_app a b : b <> [] -> endsP (a ++ b) = endsP b.
+Proof.
+  intros Hb. induction a as [|c a IH]; [reflexivity|]. cbn [app endsP].
+  destruct (a ++ b) eqn:E; [|exact IH]. destruct a; [contradiction|discriminate].
+Qed.
+
+Lemma endsP_cls t : forallb incls t = true -> endsP t = false.
+Proof.
+  induction t as [|d r IH]; [reflexivity|]. cbn [forallb endsP]. intros H.
+  apply andb_true_iff in H. destruct H as [Hd Hr]. destruct r; [mem_split Hd; reflexivity|now apply IH].
+Qed.
+
+Lemma utext_ends i : wf_item i = true -> clean_item i = true ->
+  utext i <> [] /\ endsP (utext i) = negb (is_tok i).
+Proof.
+  intros Hwi Hci. destruct i as [[k t]|c|]; [| |discriminate].
+  - unfold utext. cbn [item_text is_tok negb]. destruct k; cbn [wf_item wf_elt] in Hwi.
+    + sign_texts Hwi t; split; try reflexivity; discriminate.
+    + destruct t as [|c0 [|]]; try discriminate. mem_split Hwi; split; try reflexivity; discriminate.
+    + destruct t as [|c0 [|]]; try discriminate. mem_split Hwi; split; try reflexivity; discriminate.
+    + rewrite (upper_cls _ Hwi). split; [destruct t; [discriminate Hci|discriminate]|now apply endsP_cls].
+  - cbn [clean_item] in Hci. apply orb_true_iff in Hci.
+    destruct Hci as [Hc|Hc]; apply N.eqb_eq in Hc; subst c; split; try reflexivity; discriminate.
+Qed.
+
+Lemma flat_nonempty l : forallb wf_item l = true -> clean l = true -> l <> [] -> flat l <> [].
+Proof.
+  destruct l as [|i l]; [contradiction|]. intros Hwf Hcl _.
+  destruct (wf_clean_cons _ _ Hwf Hcl) as (Hwi & Hci & _).
+  destruct (utext_ends i Hwi Hci) as [Hne _]. rewrite flat_cons'.
+  destruct (utext i); [contradiction|discriminate].
+Qed.
+
+Lemma ends_flat l : forallb wf_item l = true -> clean l = true -> l <> [] ->
+  ends_with_tok l = negb (endsP (flat l)).
+Proof.
+  induction l as [|i l IH]; intros Hwf Hcl Hne; [contradiction|].
+  destruct (wf_clean_cons _ _ Hwf Hcl) as (Hwi & Hci & Hwl & Hcl').
+  destruct (utext_ends i Hwi Hci) as [Hu He]. rewrite flat_cons'. cbn [ends_with_tok].
+  destruct l as [|j l'].
+  - change (flat []) with (@nil N). rewrite app_nil_r, He. now rewrite negb_involutive.
+  - rewrite endsP_app; [apply IH; [assumption|assumption|discriminate]|].
+    apply flat_nonempty; [assumption|assumption|discriminate].
+Qed.
+
+(* ================= the expansion of an accepted picture is accepted and is no known finding ================= *)
+Definition alpha (c : N) : bool := okc c || mem c [68; 67; 82].
+
+Lemma vf_alpha n : forall e, (length e <= n)%nat -> vf e = true -> forallb alpha e = true.
+Proof.
+  induction n as [|n IH]; intros e Hlen Hv.
+  { destruct e; [reflexivity|simpl in Hlen; lia]. }
+  destruct e as [|c t]; [reflexivity|]. cbn [vf] in Hv. cbn [forallb].
+  destruct (c =? 68) eqn:E68.
+  { apply N.eqb_eq in E68. subst c. destruct t as [|d t']; [discriminate|].
+    apply andb_true_iff in Hv. destruct Hv as [Hd Hv]. apply N.eqb_eq in Hd. subst d.
+    cbn [forallb]. change (alpha 68) with true. change (alpha 66) with true. cbn [andb].
+    apply IH; [clear - Hlen; simpl in Hlen; lia|exact Hv]. }
+  destruct (c =? 67) eqn:E67.
+  { apply N.eqb_eq in E67. subst c. destruct t as [|d t']; [discriminate|].
+    apply andb_true_iff in Hv. destruct Hv as [Hd Hv]. apply N.eqb_eq in Hd. subst d.
+    cbn [forallb]. change (alpha 67) with true. change (alpha 82) with true. cbn [andb].
+    apply IH; [clear - Hlen; simpl in Hlen; lia|exact Hv]. }
+  apply andb_true_iff in Hv. destruct Hv as [Hc Hv]. unfold alpha at 1. rewrite Hc. cbn [orb andb].
+  apply IH; [clear - Hlen; simpl in Hlen; lia|exact Hv].
+Qed.
+
+Lemma alpha_facts c : alpha c = true -> (is_nd c && negb (ascii_digit c)) = false /\ lowtrig c = false.
+Proof.
+  unfold alpha, okc. intros H. apply orb_true_iff in H. destruct H as [H|H]; mem_split H; split; reflexivity.
+Qed.
+
+Lemma alpha_kb e : forallb alpha e = true -> kb_nd e = false /\ kb_lower e = false.
+Proof.
+  unfold kb_nd, kb_lower. induction e as [|c e IH]; [split; reflexivity|]. cbn [forallb existsb]. intros H.
+  apply andb_true_iff in H. destruct H as [Hc He]. destruct (IH He) as [I1 I2].
+  destruct (alpha_facts c Hc) as [F1 F2]. unfold lowtrig in F2. rewrite F1, F2, I1, I2. split; reflexivity.
+Qed.
+
+Lemma ends_elems l : ends_with_tok l = true -> elems l <> [].
+Proof.
+  induction l as [|i l IH]; [discriminate|]. cbn [ends_with_tok]. destruct l as [|j l'].
+  - destruct i; cbn; try discriminate.
+  - intros H. specialize (IH H). destruct i; cbn [elems]; [discriminate|exact IH|exact IH].
+Qed.
+
+Lemma clean_no_bad l : clean l = true -> existsb bad_skip l = false /\ existsb empty_elt (elems l) = false.
+Proof.
+  unfold clean. induction l as [|i l IH]; [split; reflexivity|]. cbn [forallb]. intros H.
+  apply andb_true_iff in H. destruct H as [Hi Hl]. destruct (IH Hl) as [I1 I2].
+  destruct i as [[k t]|c|]; [| |discriminate]; cbn [existsb elems bad_skip clean_item] in *.
+  - destruct t; [discriminate|]. cbn [empty_elt orb]. split; assumption.
+  - rewrite Hi. cbn [negb orb]. split; assumption.
+Qed.
+
+Lemma flat_nil_inv l : forallb wf_item l = true -> clean l = true -> flat l = [] -> l = [].
+Proof.
+  intros Hwf Hcl H. destruct l as [|i l]; [reflexivity|].
+  exfalso. apply (flat_nonempty (i :: l) Hwf Hcl); [discriminate|exact H].
+Qed.
+
+(* everything about the second scan *)
+Lemma expansion_ok s e r : known_bad s = false -> sp_expand s = Some e -> dec_parse s = Some (Ok r) ->
+  known_bad e = false /\ ends_with_tok (dec_items e) = true /\ flat (dec_items e) = e /\ sp_expand e = Some e /\
+  flat (dec_items s) = e.
+Proof.
+  intros Hkb Hexp Hr.
+  destruct (dec_parse_shape s r Hkb Hr) as (Hcl & Hwf & Hend & Hexp' & _).
+  rewrite Hexp in Hexp'. injection Hexp' as He.
+  set (l := dec_items s) in *.
+  assert (Hvf : vf e = true) by (rewrite He; now apply vf_flat).
+  assert (Hnp : mem 40 e = false) by (rewrite He; now apply flat_no_paren).
+  assert (Hup : map sp_upper e = e) by (rewrite He; apply flat_upper).
+  assert (Hne : e <> []).
+  { rewrite He. apply flat_nonempty; try assumption. now apply ends_nonempty. }
+  set (l' := dec_items e).
+  assert (Hcl' : clean l' = true) by (unfold l'; rewrite dec_items_eq; apply rescan_clean; [apply le_n|exact Hvf]).
+  assert (Hwf' : forallb wf_item l' = true) by (unfold l'; rewrite dec_items_eq; apply scan_wf).
+  assert (Hfl : flat l' = e).
+  { unfold l'. rewrite dec_items_eq, flat_plain; [exact Hup|apply le_n|exact Hnp]. }
+  assert (Hne' : l' <> []).
+  { intros H. rewrite H in Hfl. change (flat []) with (@nil N) in Hfl. now symmetry in Hfl. }
+  assert (Hend' : ends_with_tok l' = true).
+  { rewrite (ends_flat l' Hwf' Hcl' Hne'), Hfl, He, <- (ends_flat l Hwf Hcl (ends_nonempty _ Hend)). exact Hend. }
+  destruct (alpha_kb e (vf_alpha _ e (le_n _) Hvf)) as [Knd Klow].
+  assert (Hexp2 : sp_expand e = Some e).
+  { destruct e as [|c t]; [contradiction|]. unfold sp_expand.
+    rewrite <- Hfl at 2. unfold l'. rewrite dec_items_eq. apply clean_expand; [apply le_n|now left| |].
+    - rewrite <- dec_items_eq. exact Hcl'.
+    - apply existsb_false_forallb. exact Knd. }
+  destruct (known_bad_false s Hkb) as (_ & _ & _ & _ & _ & Klo & Kzp & _).
+  destruct (clean_no_bad l' Hcl') as [Nb Ne].
+  assert (Kb : known_bad e = false).
+  { unfold known_bad, known_code.
+    assert (K5 : kb_nomatch e = false).
+    { unfold kb_nomatch. rewrite (items_same e Klow). fold l'.
+      destruct (elems l') eqn:E; [|reflexivity]. exfalso. now apply (ends_elems l' Hend'). }
+    assert (K1 : kb_skip e = false).
+    { unfold kb_skip. rewrite (items_same e Klow). fold l'. now rewrite Nb, andb_false_r. }
+    assert (K2 : kb_zero e = false).
+    { unfold kb_zero. rewrite (items_same e Klow). fold l'. now rewrite Ne. }
+    assert (K8 : kb_lastonly e = false).
+    { unfold kb_lastonly in *. rewrite Hexp in Klo. now rewrite Hexp2. }
+    assert (K7 : kb_zeropos e = false).
+    { unfold kb_zeropos, sp_parse in *. rewrite Hexp in Kzp. now rewrite Hexp2. }
+    assert (K4 : kb_repnum e = false).
+    { unfold kb_repnum. destruct (sp_parse e); [|reflexivity]. now rewrite Hnp, andb_false_r. }
+    now rewrite K5, Knd, Klow, K1, K2, K8, K7, K4. }
+  repeat split; try assumption. now symmetry.
+Qed.
+
+Lemma dec_parse_accept e : known_bad e = false -> ends_with_tok (dec_items e) = true ->
+  exists r', dec_parse e = Some (Ok r').
+Proof.
+  intros Hkb Hend. destruct (accepted_facts e Hkb Hend) as (_ & _ & Hsize).
+  unfold dec_parse. rewrite dec_normalize_eq, Hend, Hsize. eexists. reflexivity.
+Qed.
+
+Lemma repeat_full s e r : known_bad s = false -> sp_expand s = Some e -> dec_parse s = Some (Ok r) ->
+  exists r', dec_parse e = Some (Ok r') /\ p_size r' = p_size r /\
+    g_sign (p_groups r') = g_sign (p_groups r) /\
+    length (g_int (p_groups r')) = length (g_int (p_groups r)) /\
+    length (g_frac (p_groups r')) = length (g_frac (p_groups r)) /\ p_zoned r' = p_zoned r.
+Proof.
+  intros Hkb Hexp Hr.
+  destruct (expansion_ok s e r Hkb Hexp Hr) as (Hkb' & Hend' & Hfl' & Hexp' & Hfl).
+  destruct (dec_parse_accept e Hkb' Hend') as [r' Hr']. exists r'. split; [exact Hr'|].
+  destruct (dec_parse_shape s r Hkb Hr) as (Hcl & Hwf & _ & _ & ->).
+  destruct (dec_parse_shape e r' Hkb' Hr') as (Hcl' & Hwf' & _ & _ & ->).
+  destruct (groups_flat _ Hwf Hcl) as (G1 & G2 & G3).
+  destruct (groups_flat _ Hwf' Hcl') as (G1' & G2' & G3').
+  cbn [p_size p_groups p_zoned]. rewrite G1, G2, G3, G1', G2', G3', Hfl, Hfl'.
+  repeat split.
+  destruct (known_bad_false s Hkb) as (_ & _ & _ & _ & _ & Klo & _).
+  unfold kb_lastonly in Klo. rewrite Hexp in Klo.
+  rewrite (zoned_numeric _ _ Hwf' Hcl'), (zoned_numeric _ _ Hwf Hcl); rewrite ?Hfl, ?Hfl'; try assumption.
+  reflexivity.
+Qed.
+
+(* the expansion stays outside the known findings *)
+Lemma expansion_not_bad s e r : known_bad s = false -> sp_expand s = Some e -> dec_parse s = Some (Ok r) ->
+  known_bad e = false /\ sp_expand e = Some e.
+Proof. intros H1 H2 H3. destruct (expansion_ok s e r H1 H2 H3) as (K & _ & _ & X & _). now split. Qed.
+
+(* the decoder's digit groups and class are the specification's, for every accepted string outside the findings *)
+Lemma dec_summary s r v : known_bad s = false -> dec_parse s = Some (Ok r) -> sp_parse s = Some v ->
+  p_size r = positions v /\ length (g_int (p_groups r)) = int_digits v /\
+  length (g_frac (p_groups r)) = frac_digits v /\ p_zoned r = numeric v.
+Proof.
+  intros Hkb Hr Hv. pose proof (dec_class s r v Hkb Hr Hv) as Hz.
+  destruct (dec_parse_shape s r Hkb Hr) as (Hcl & Hwf & _ & Hexp & E).
+  destruct (groups_flat _ Hwf Hcl) as (_ & G2 & G3).
+  unfold sp_parse in Hv. rewrite Hexp in Hv. injection Hv as Ev.
+  rewrite E in *. cbn [p_size p_groups p_zoned] in *. rewrite <- Ev. cbn [sp_summary positions int_digits frac_digits].
+  repeat split; try assumption. now rewrite <- Ev in Hz.
+Qed.
